@@ -1,4 +1,5 @@
 import DateutilVerif.Properties.C14
+import DateutilVerif.Properties.ParserGen
 #print axioms C14.parse_total
 #print axioms C14.parse_total_default
 #print axioms C14.parseResult_total
@@ -13,3 +14,9 @@ import DateutilVerif.Properties.C14
 #print axioms C14.build_tzaware_bad_tzstring_ValueError
 #print axioms C14.parse_raising_callable_is_ParserError
 #print axioms C14.tzstring_query_raises
+#print axioms ParserGen.gen_eq_model_ymd_append_str
+#print axioms ParserGen.gen_eq_model_ymd_append_decimal
+#print axioms ParserGen.gen_eq_model_ymd_append_int
+#print axioms ParserGen.gen_eq_model_ymd_could_be_day
+#print axioms ParserGen.gen_eq_model_ymd_resolve_from_stridxs
+#print axioms ParserGen.gen_eq_model_ymd_resolve_ymd
